@@ -328,27 +328,32 @@ fn make_case(target: &str, seed: &[u8], family: &str, k: usize, rng_seed: u64) -
     }
 }
 
+/// One time base for the case-start stamps and the watchdog.
+fn process_t0() -> &'static std::time::Instant {
+    static T0: OnceLock<std::time::Instant> = OnceLock::new();
+    T0.get_or_init(std::time::Instant::now)
+}
+
+fn now_ms() -> u64 {
+    process_t0().elapsed().as_millis() as u64 + 1
+}
+
 fn start_watchdog() {
     static STARTED: AtomicBool = AtomicBool::new(false);
+    let _ = process_t0();
     if STARTED.swap(true, Ordering::SeqCst) {
         return;
     }
-    let t0 = std::time::Instant::now();
-    static T0: OnceLock<std::time::Instant> = OnceLock::new();
-    let _ = T0.set(t0);
     std::thread::Builder::new()
         .name("c03-watchdog".into())
         .spawn(move || loop {
             std::thread::sleep(std::time::Duration::from_millis(500));
             let s = CASE_STARTED_MS.load(Ordering::SeqCst);
-            if s != 0 {
-                let now = t0.elapsed().as_millis() as u64 + 1;
-                if now > s + 10_000 {
-                    let m = b"WATCHDOG-TIMEOUT case ran for more than 10 s\n";
-                    unsafe {
-                        libc::write(2, m.as_ptr() as *const libc::c_void, m.len());
-                        libc::abort();
-                    }
+            if s != 0 && now_ms() > s + 10_000 {
+                let m = b"WATCHDOG-TIMEOUT case ran for more than 10 s\n";
+                unsafe {
+                    libc::write(2, m.as_ptr() as *const libc::c_void, m.len());
+                    libc::abort();
                 }
             }
         })
@@ -356,9 +361,7 @@ fn start_watchdog() {
 }
 
 fn mark_case_start() {
-    static T0: OnceLock<std::time::Instant> = OnceLock::new();
-    let t0 = T0.get_or_init(std::time::Instant::now);
-    let _ = t0;
+    let _ = process_t0();
 }
 
 #[derive(Debug)]
@@ -552,7 +555,6 @@ impl Prop for C03 {
             // an include file that includes itself, and a sane one
             let _ = std::fs::write(format!("{}/inc.conf", scratch), format!("threads 2\ninclude \"{}/inc.conf\"\n", scratch));
         }
-        let t0 = std::time::Instant::now();
         let results: std::sync::Arc<Mutex<RunResult>> = std::sync::Arc::new(Mutex::new(RunResult::default()));
         let r2 = results.clone();
         let scratch2 = scratch.clone();
@@ -583,7 +585,7 @@ impl Prop for C03 {
                     if di == 1 {
                         rr.count("c03.bytewise_deliveries", 1);
                     }
-                    CASE_STARTED_MS.store(t0.elapsed().as_millis() as u64 + 1, Ordering::SeqCst);
+                    CASE_STARTED_MS.store(now_ms(), Ordering::SeqCst);
                     let base = alloc::begin_case();
                     let (outcome, slack) = if target == "wsmsg" {
                         let (o, _) = run_wsmsg(&data, di == 1, end_err.is_some(), k % 2 == 1);
